@@ -30,6 +30,11 @@ func (d *DiskKV) replayLogs() error {
 		if err := entry.UnmarshalVT(buf); err != nil {
 			return fmt.Errorf("error deserializing log at index %d: %w", i, err)
 		}
+		// the writer emits exactly one version, one data and one checksum field: anything else
+		// (unknown fields, repeated fields - the last one would win) is a damaged entry
+		if entry.SizeVT() != len(buf) || len(entry.ProtoReflect().GetUnknown()) != 0 {
+			return fmt.Errorf("error deserializing log at index %d: not in canonical form, possibly corrupted log", i)
+		}
 		if err := d.decodeEntry(entry, mut); err != nil {
 			return fmt.Errorf("error decoding entry to mutation at index %d: %w", i, err)
 		}
